@@ -292,6 +292,103 @@ pub fn via_go(run: &'static Run) -> (u64, u64) {
     (a, a)
 }
 
+/// Option histories: every sequence of up to three configuration commands before a clock-limited `go`; the limits
+/// must be those of a fresh engine that was only told the Move Overhead in force (the last one set).
+pub fn option_order(run: &'static Run) -> (u64, u64) {
+    use crate::ucidrv::{Drv, Wait};
+    let alphabet: Vec<(&'static str, Option<u64>)> = vec![
+        ("setoption name Move Overhead value 0", Some(0)),
+        ("setoption name Move Overhead value 100", Some(100)),
+        ("setoption name Move Overhead value 1000", Some(1000)),
+        ("setoption name Hash value 1", None),
+        ("setoption name Hash value 16", None),
+        ("setoption name Threads value 1", None),
+        ("ucinewgame", None),
+        ("isready", None),
+    ];
+    let k = alphabet.len();
+    let mut seqs: Vec<Vec<usize>> = vec![vec![]];
+    let mut layer: Vec<Vec<usize>> = vec![vec![]];
+    for _ in 0..3 {
+        let mut next = vec![];
+        for s in &layer {
+            for a in 0..k {
+                let mut t = s.clone();
+                t.push(a);
+                next.push(t);
+            }
+        }
+        seqs.extend(next.iter().cloned());
+        layer = next;
+    }
+    let gos = ["go wtime 5000 btime 5000 movestogo 1 depth 1", "go wtime 3000 btime 3000 winc 2000 binc 2000 depth 1"];
+    let n: &'static AtomicU64 = Box::leak(Box::new(AtomicU64::new(0)));
+    let limits_of = move |lines: &[&str], go: &str| -> Result<(Duration, Duration), String> {
+        let mut d = Drv::new(1)?;
+        for l in lines {
+            d.send(l)?;
+        }
+        d.send("position startpos")?;
+        crate::verif_hooks::take_limits();
+        d.send(go)?;
+        let lim = crate::verif_hooks::take_limits();
+        if d.wait_search(std::time::Duration::from_secs(60)) != Wait::Finished {
+            return Err("the search did not finish".into());
+        }
+        d.take();
+        lim.last().copied().ok_or_else(|| "hook H5 reported no limits".to_string())
+    };
+    // references: a fresh engine told only the overhead
+    let mut reference: std::collections::HashMap<(u64, usize), (Duration, Duration)> = std::collections::HashMap::new();
+    for oh in [0u64, 100, 1000] {
+        for (gi, go) in gos.iter().enumerate() {
+            let line = format!("setoption name Move Overhead value {oh}");
+            match limits_of(&[line.as_str()], go) {
+                Ok(l) => {
+                    reference.insert((oh, gi), l);
+                }
+                Err(e) => {
+                    run.machinery_error(format!("OPTION-ORDER reference (overhead {oh}, `{go}`): {e}"));
+                    return (0, 0);
+                }
+            }
+        }
+    }
+    let reference: &'static std::collections::HashMap<(u64, usize), (Duration, Duration)> = Box::leak(Box::new(reference));
+    let seqs: &'static Vec<Vec<usize>> = Box::leak(Box::new(seqs));
+    let alphabet: &'static Vec<(&'static str, Option<u64>)> = Box::leak(Box::new(alphabet));
+    par_for(seqs.len(), |i| {
+        let seq = &seqs[i];
+        let lines: Vec<&str> = seq.iter().map(|a| alphabet[*a].0).collect();
+        let oh = seq.iter().filter_map(|a| alphabet[*a].1).last().unwrap_or(0);
+        for (gi, go) in gos.iter().enumerate() {
+            n.fetch_add(1, Ordering::Relaxed);
+            let script = format!("{} ; position startpos ; {go}", lines.join(" ; "));
+            let case = J::obj(vec![("kind", J::s("option-order")), ("lines", J::Arr(lines.iter().map(|l| J::s(*l)).collect())), ("go", J::s(*go)), ("overhead_ms", J::i(oh))]);
+            let lines2: Vec<String> = lines.iter().map(|l| l.to_string()).collect();
+            let go2 = go.to_string();
+            let r = crate::util::with_timeout(120, move || {
+                let ls: Vec<&str> = lines2.iter().map(|l| l.as_str()).collect();
+                limits_of(&ls, &go2)
+            });
+            match r {
+                None => run.violation("go-with-clocks-failed", format!("option-order-blocked|{script}"), case, format!("[{script}]: the command loop blocked")),
+                Some(Err(e)) => run.violation("go-with-clocks-failed", format!("option-order-failed|{script}"), case, format!("[{script}]: {e}")),
+                Some(Ok(l)) => {
+                    run.distinct_outcome(format!("{l:?}"));
+                    let want = reference[&(oh, gi)];
+                    if l != want {
+                        run.violation("limits-depend-on-option-history", format!("option-order|{script}"), case, format!("[{script}]: limits {l:?}; a fresh engine told only `Move Overhead {oh}` (the value in force) arrives at {want:?}"));
+                    }
+                }
+            }
+        }
+    });
+    let a = n.load(Ordering::Relaxed);
+    run.family("OPTION-ORDER", "every sequence of <= 3 commands over {Move Overhead 0/100/1000, Hash 1/16, Threads 1, ucinewgame, isready} (585 sequences) followed by two clock-limited go commands whose cap is the binding term; limits (hook H5) compared with a fresh engine told only the overhead in force", a, a, true, "");
+    (a, a)
+}
+
 /// Part 2: the real search under a virtual clock that advances with the node count (1 microsecond per
 /// node, slower than the checked build measures): virtual time at return < remaining time.
 pub fn virtual_clock_runs(run: &Run) -> (u64, u64) {
@@ -347,6 +444,36 @@ pub fn virtual_clock_runs(run: &Run) -> (u64, u64) {
 }
 
 pub fn replay(run: &'static Run, case: &J) {
+    if case.get("kind").and_then(|x| x.as_str()) == Some("option-order") {
+        use crate::ucidrv::{Drv, Wait};
+        let lines: Vec<String> = case.get("lines").and_then(|x| x.as_arr()).map(|a| a.iter().filter_map(|l| l.as_str().map(|s| s.to_string())).collect()).unwrap_or_default();
+        let go = case.get("go").and_then(|x| x.as_str()).unwrap_or("go depth 1").to_string();
+        let oh = case.get("overhead_ms").and_then(|x| x.as_i64()).unwrap_or(0);
+        let run_one = |ls: &[String]| -> Option<(Duration, Duration)> {
+            let mut d = Drv::new(1).ok()?;
+            for l in ls {
+                println!("> {l}");
+                let _ = d.send(l);
+            }
+            let _ = d.send("position startpos");
+            crate::verif_hooks::take_limits();
+            println!("> {go}");
+            let _ = d.send(&go);
+            let lim = crate::verif_hooks::take_limits();
+            if d.wait_search(std::time::Duration::from_secs(60)) != Wait::Finished {
+                return None;
+            }
+            lim.last().copied()
+        };
+        let got = run_one(&lines);
+        println!("--- fresh engine, overhead {oh} only");
+        let want = run_one(&[format!("setoption name Move Overhead value {oh}")]);
+        println!("limits after the history: {got:?}; fresh engine: {want:?}");
+        if got != want {
+            run.violation("limits-depend-on-option-history", String::new(), J::Null, format!("limits {got:?} vs {want:?}"));
+        }
+        return;
+    }
     if case.get("kind").and_then(|x| x.as_str()) == Some("clock-via-go") {
         println!("re-running the CLOCK-VIA-GO family (a few seconds); stored line: {:?}", case.get("line"));
         via_go(run);
